@@ -51,9 +51,9 @@ func genSchemas(t *rapid.T, o WorldOpts) []string {
 		}
 		// foreign key choices for this table: (cols, target, targetcols)
 		type fkc struct {
-			cols       []string
-			tgt        string
-			tcols      []string
+			cols  []string
+			tgt   string
+			tcols []string
 		}
 		var fkcs []fkc
 		if o.Fkeys {
